@@ -8,9 +8,14 @@
 //! * ops on the connection under test: clone / drop / drop-all of handles, inbound message (application keeps or
 //!   releases the handle that comes with it), peer close, garbage bytes, `Select` (select_transport to the same
 //!   remote, handle kept), `Touch` (select_transport to the same remote and release of the returned handle with no
-//!   scheduling point in between: the registry is changed twice between two polls of the connection's task).
+//!   scheduling point in between: the registry is changed twice between two polls of the connection's task),
+//!   `Partial` (the peer writes the beginning of a request - 10 bytes, 90 bytes, head without the empty line, head
+//!   without body, head and half the body - or CRLF CR, or a lone CR, and stops; the next `Msg` writes the rest, a
+//!   further `Partial` half of the rest), `KeepAlive` (a whole CRLF CRLF).
 //!   Ops that share an instant are executed back to back, the stack runs only after the last of them, so a
-//!   pick-up, a release, a message, a close can all be pending when the task is polled next.
+//!   pick-up, a release, a message, a close can all be pending when the task is polled next. In particular a
+//!   `Select` / `Touch` that shares its instant with the release of the last handle finds the connection with a
+//!   run-out reference count its task has not yet noticed.
 //! * ops that must NOT concern the connection under test: `Probe` = select_transport for another target whose
 //!   registry scan passes over the connection (sips: URI on the same address = security level too low; other port;
 //!   other host). The returned handle (a side connection, or an error when nothing can serve the target) is
@@ -18,7 +23,12 @@
 //! * sub-checks: `race` (drop-last + message in one instant, enumerated x seeds), `pickup` (pick-up + release of an
 //!   idle connection between two polls together with message / close / garbage in the same instant, enumerated x
 //!   seeds), `probe` (selections for other targets while the connection is idle / silent / referenced, once and
-//!   periodically, enumerated), `history` (random histories over all ops).
+//!   periodically, enumerated), `reselect` (last handle released and select_transport to the same remote in one
+//!   instant, 5 ways to release x 5 continuations of the instant, the handle then held across 32 s, a later
+//!   pick-up and released, enumerated x seeds), `fragment` (beginning of a message / half or whole keep-alive on a
+//!   silent accepted, a released accepted, a released outbound, a still referenced connection x arrival instant x
+//!   {nothing, the rest, another piece, peer close, pick-up held across the idle period, selection after the idle
+//!   period}, enumerated), `history` (random histories over all ops).
 //!
 //! Oracle (lifecycle reference model, written from the property statement, never asks ezk what it expects)
 //! * registered while referenced; every message written while the connection is alive is delivered exactly once,
@@ -27,10 +37,23 @@
 //!   a live outbound connection is reused by select_transport; inbound connections are never selected;
 //!   a connection the history has moved away from (inbound one after a Select) still expires 32 s after its own
 //!   last use; selections for other targets are not a use of the connection (its expiry instant is unchanged).
+//! * select_transport in the instant the last handle was released, before the stack ran: it may hand out the old
+//!   connection or open a new one (the model follows what `connect` calls show); whichever it hands out is
+//!   referenced from then on and has to stay registered, deliver and not expire like any other referenced connection;
+//!   an old connection that was not handed out expires 32 s after the release.
+//! * bytes that are no whole message (fragment, keep-alive): "32 s without traffic" is read both ways, the close is
+//!   accepted 32 s after the last use (last release / last whole message) or 32 s after any later arrival of such
+//!   bytes; later than the last of these instants the connection has to be closed, unregistered and not selectable.
+//!   A message completed while the connection is certainly alive is delivered like any other.
 //!
 //! Not asserted
-//! * anything within 2 ms of a 32 s edge (tie); what a select_transport returns in the very instant the last handle
-//!   was released or the peer closed, before the stack ran (the harness inserts a scheduling point there);
+//! * anything within 2 ms of a 32 s edge (tie); any history with an op between the earliest and the latest accepted
+//!   expiry instant of a connection holding a fragment (alive under one reading, closed under the other);
+//!   whether select_transport reuses or reconnects in the very instant the last handle was released;
+//!   what it returns in the very instant the peer closed, before the stack ran (the harness inserts a scheduling
+//!   point there); which of two live outbound connections to the remote a selection picks (after a reconnect in
+//!   the instant of the release the old connection idles for 32 s: selections to the remote are left out meanwhile);
+//!   garbage behind a fragment (would be read as part of the message: the op is left out);
 //!   what a `Probe` returns (error, new or pooled side connection) and the lifetime of side connections;
 //!   TLS connections (only a non-secure factory is registered, so a sips: target has no transport).
 
@@ -100,6 +123,61 @@ pub enum Op {
     Touch,
     /// application asks for a transport to another target; the handle (if any) is released at once
     Probe { target: Other },
+    /// peer writes the beginning of a request (or half of a CRLF keep-alive) and stops; the rest is written by the
+    /// next `Msg` op on the same connection (a further `Partial` writes half of what is left)
+    Partial { kind: Frag },
+    /// peer writes a whole CRLF CRLF keep-alive
+    KeepAlive,
+}
+
+/// where the peer stops in the middle of what it sends
+#[derive(Serialize, Deserialize, Clone, Copy, Debug, Hash, PartialEq, Eq)]
+pub enum Frag {
+    /// 10 bytes: inside the request line
+    HeadStart,
+    /// 90 bytes: inside a header line
+    HeadMid,
+    /// the whole head except the empty line that ends it
+    HeadNoTerminator,
+    /// the whole head (Content-Length: 20), no byte of the body
+    BodyMissing,
+    /// the whole head and 10 of the 20 bytes of the body
+    BodyHalf,
+    /// CRLF CR: one CRLF is consumed, a lone CR stays in the read buffer
+    HalfCrlf,
+    /// CR
+    LoneCr,
+}
+
+impl Frag {
+    pub const ALL: [Frag; 7] = [Frag::HeadStart, Frag::HeadMid, Frag::HeadNoTerminator, Frag::BodyMissing, Frag::BodyHalf, Frag::HalfCrlf, Frag::LoneCr];
+    fn label(self) -> &'static str {
+        match self {
+            Frag::HeadStart => "fragment-while-unreferenced:request-line-part",
+            Frag::HeadMid => "fragment-while-unreferenced:head-part",
+            Frag::HeadNoTerminator => "fragment-while-unreferenced:head-without-empty-line",
+            Frag::BodyMissing => "fragment-while-unreferenced:head-without-body",
+            Frag::BodyHalf => "fragment-while-unreferenced:head-and-half-body",
+            Frag::HalfCrlf => "fragment-while-unreferenced:crlf-cr",
+            Frag::LoneCr => "fragment-while-unreferenced:lone-cr",
+        }
+    }
+    /// (bytes written now, bytes that complete it, does a request come out of it)
+    fn split(self, marker: &str) -> (Vec<u8>, Vec<u8>, bool) {
+        let body: &[u8] = if matches!(self, Frag::BodyMissing | Frag::BodyHalf) { b"01234567890123456789" } else { b"" };
+        let full = options_with_body(marker, "TCP", body);
+        let head_len = full.len() - body.len();
+        let cut = match self {
+            Frag::HeadStart => 10,
+            Frag::HeadMid => 90,
+            Frag::HeadNoTerminator => head_len - 2,
+            Frag::BodyMissing => head_len,
+            Frag::BodyHalf => head_len + 10,
+            Frag::HalfCrlf => return (b"\r\n\r".to_vec(), b"\n".to_vec(), false),
+            Frag::LoneCr => return (b"\r".to_vec(), b"\n".to_vec(), false),
+        };
+        (full[..cut].to_vec(), full[cut..].to_vec(), true)
+    }
 }
 
 #[derive(Serialize, Deserialize, Clone, Debug, Hash)]
@@ -126,6 +204,8 @@ pub fn strategy() -> BoxedStrategy<Case> {
         1 => Just(Op::Probe { target: Other::SecureSameAddr }),
         1 => Just(Op::Probe { target: Other::OtherPort }),
         1 => Just(Op::Probe { target: Other::OtherHost }),
+        3 => any::<u16>().prop_map(|k| Op::Partial { kind: Frag::ALL[pick_idx(k, Frag::ALL.len())] }),
+        1 => Just(Op::KeepAlive),
     ];
     (any::<bool>(), prop::collection::vec((any::<u16>(), op), 1..9), any::<u8>())
         .prop_map(|(inbound, ops, rng)| Case {
@@ -263,6 +343,123 @@ pub fn probe_cases(tier: Tier) -> Vec<Case> {
     out
 }
 
+/// the last handle of an outbound connection is released and, in the same instant and with no scheduling point in
+/// between (the connection's task has not yet seen the release), the application asks for a transport to the same
+/// remote again; the handle it gets is held across more than 32 s, across a later pick-up, and released.
+/// Enumerated: inbound/outbound start x time before x how the last handle went x what follows in the same instant
+/// x time after x tokio seeds.
+pub fn reselect_cases(tier: Tier) -> Vec<Case> {
+    let mut out = vec![];
+    let seeds = tier.pick(8u32, 64u32);
+    let msg = Op::Msg { keep: false };
+    // (ops before the instant [gap 1 each], ops of the instant that release the last handle)
+    let releases: Vec<(Vec<Op>, Vec<Op>)> = vec![
+        (vec![], vec![Op::Drop]),
+        (vec![], vec![Op::Clone, Op::DropAll]),
+        (vec![Op::DropAll], vec![Op::Touch]),
+        (vec![Op::DropAll], vec![Op::Select, Op::Drop]),
+        (vec![], vec![msg, Op::Drop]),
+    ];
+    let follows: Vec<Vec<Op>> = vec![
+        vec![Op::Select],
+        vec![Op::Select, msg],
+        vec![Op::Touch, Op::Select],
+        vec![Op::Select, Op::Clone, Op::Drop],
+        vec![Op::Select, Op::Drop, Op::Select],
+    ];
+    for inbound in [false, true] {
+        for lead in [1u64, IDLE - 3] {
+            for (before, release) in &releases {
+                for follow in &follows {
+                    for tail in [IDLE - 3, IDLE + 3] {
+                        for rng in 0..seeds {
+                            let mut ops = vec![];
+                            if inbound {
+                                // the history leaves the accepted connection for an outbound one to the same remote
+                                ops.push((1, Op::Select));
+                            }
+                            for op in before {
+                                ops.push((1, *op));
+                            }
+                            for (i, op) in release.iter().chain(follow.iter()).enumerate() {
+                                ops.push((if i == 0 { lead } else { 0 }, *op));
+                            }
+                            // the handle is held; the connection has to stay usable
+                            ops.push((IDLE + 3, msg));
+                            ops.push((tail, Op::Msg { keep: true }));
+                            ops.push((1, Op::DropAll));
+                            ops.push((tail, Op::Select));
+                            out.push(Case { inbound, ops, rng: rng as u8 });
+                        }
+                    }
+                }
+            }
+        }
+    }
+    out
+}
+
+/// the peer starts a message (or half a CRLF keep-alive, or a whole one) on a connection and stops: while the
+/// connection is unreferenced (accepted and silent, accepted and released, outbound and released) or shortly before
+/// its last handle is released. Afterwards: nothing / the rest / another piece / peer close / a pick-up that is
+/// held across the idle period / a selection long after the idle period.
+/// Enumerated: situation x fragment x arrival inside the idle period x what follows x a few seeds.
+pub fn fragment_cases(tier: Tier) -> Vec<Case> {
+    let mut out = vec![];
+    let seeds = tier.pick(2u32, 16u32);
+    let mut kinds: Vec<Op> = Frag::ALL.iter().map(|k| Op::Partial { kind: *k }).collect();
+    kinds.push(Op::KeepAlive);
+    for situation in 0..4 {
+        for frag in &kinds {
+            for lead in [1u64, 16_000, IDLE - 3] {
+                for tail in 0..6 {
+                    // what follows comes 100 ms later: only inside the idle period for the two early arrivals
+                    if lead == IDLE - 3 && !(tail == 0 || tail == 5) {
+                        continue;
+                    }
+                    for rng in 0..seeds {
+                        let mut ops = vec![];
+                        let inbound = situation < 2;
+                        match situation {
+                            0 => ops.push((lead, *frag)),
+                            1 => {
+                                ops.push((1, Op::Msg { keep: true }));
+                                ops.push((100, Op::DropAll));
+                                ops.push((lead, *frag));
+                            }
+                            2 => {
+                                ops.push((100, Op::DropAll));
+                                ops.push((lead, *frag));
+                            }
+                            _ => {
+                                // arrives while referenced, the last handle goes 100 ms later
+                                ops.push((lead, *frag));
+                                ops.push((100, Op::DropAll));
+                            }
+                        }
+                        match tail {
+                            0 => {}
+                            1 => ops.push((100, Op::Msg { keep: false })),
+                            2 => ops.push((100, *frag)),
+                            3 => ops.push((100, Op::PeerClose)),
+                            4 => {
+                                ops.push((100, Op::Select));
+                                ops.push((2 * IDLE, Op::Msg { keep: false }));
+                            }
+                            _ => {
+                                ops.push((2 * IDLE + 100, Op::Select));
+                                ops.push((1, Op::Msg { keep: false }));
+                            }
+                        }
+                        out.push(Case { inbound, ops, rng: rng as u8 });
+                    }
+                }
+            }
+        }
+    }
+    out
+}
+
 // ---------------------------------------------------------------------------------------------
 // reference model
 
@@ -274,15 +471,27 @@ struct Model {
     alive: bool,
     /// since when nobody references it
     unused_since: Option<u64>,
-    /// instant the peer must see EOF because of idle expiry
-    expect_eof: Option<u64>,
+    /// instants at which the peer may see EOF because of idle expiry: 32 s after the last use, or 32 s after a
+    /// later arrival of bytes that are no whole message (both readings of "traffic" are accepted); empty = no expiry due
+    expect_eof: Vec<u64>,
+    /// arrival instants of such bytes (fragment of a message, CRLF keep-alive) since the connection is unreferenced
+    frag_times: Vec<u64>,
+    /// the expiry of the connection depends on which of the two readings is taken and an op falls in between
+    disputed: bool,
+    /// the idle period ended with an incomplete message in the read buffer
+    fragment_pending_at_expiry: bool,
+    /// the read buffer of the connection holds an incomplete message / half a CRLF
+    frag_pending: bool,
     /// number of connections ever opened (index of the current one)
     generation: u32,
     expected_delivered: Vec<String>,
     ambiguous: bool,
-    /// since the stack last ran: the last handle was released, or the peer closed / sent garbage. What a
-    /// select_transport finds in this state is not asserted (the harness lets the stack run first)
-    dirty: bool,
+    /// since the stack last ran: the last handle was released. A select_transport in this state may reuse the
+    /// connection or connect anew, the model follows what it did
+    dirty_release: bool,
+    /// since the stack last ran: the peer closed / sent garbage. What a select_transport finds in this state is not
+    /// asserted (the harness lets the stack run first)
+    dirty_close: bool,
     /// since the stack last ran: a message was written to the live connection (it will be delivered in this instant)
     msg_unsettled: bool,
     /// since the stack last ran: select_transport picked up the connection while nobody referenced it
@@ -298,26 +507,48 @@ struct Model {
     /// the connection's task was polled with a pick-up + release AND a message (a close) pending
     pickup_with_message_ever: bool,
     pickup_with_close_ever: bool,
-    /// connections the history has moved away from: (peer conn id, instant their own idle period ends)
-    left: Vec<(u32, u64)>,
+    /// connections the history has moved away from: (peer conn id, instants their own idle period may end)
+    left: Vec<(u32, Vec<u64>)>,
+    /// an outbound connection to the remote that the history moved away from while it was alive can be selected again
+    /// until this instant (once the stack ran: `left_pending_until` before that)
+    left_outbound_until: Option<u64>,
+    left_pending_until: Option<u64>,
 }
 
 impl Model {
+    /// instants at which the idle period of the unreferenced connection may end (ascending, first = 32 s after last use)
+    fn candidates(&self) -> Vec<u64> {
+        let Some(u) = self.unused_since else { return vec![] };
+        let mut v = vec![u + IDLE];
+        for x in &self.frag_times {
+            if *x > u && !v.contains(&(x + IDLE)) {
+                v.push(x + IDLE);
+            }
+        }
+        v.sort();
+        v
+    }
     fn expire_if_due(&mut self, t: u64) {
-        if let (true, Some(u)) = (self.alive, self.unused_since) {
-            if self.handles == 0 {
-                if t.abs_diff(u + IDLE) <= 2 {
-                    self.ambiguous = true;
-                } else if t > u + IDLE {
-                    self.alive = false;
-                    self.expect_eof = Some(u + IDLE);
-                }
+        if self.alive && self.handles == 0 && self.unused_since.is_some() {
+            let c = self.candidates();
+            if c.iter().any(|w| t.abs_diff(*w) <= 2) {
+                self.ambiguous = true;
+            } else if t > *c.last().unwrap() {
+                self.alive = false;
+                self.expect_eof = c;
+                self.fragment_pending_at_expiry |= self.frag_pending;
+                self.frag_pending = false;
+            } else if t > c[0] {
+                // closed under one reading, alive under the other
+                self.ambiguous = true;
+                self.disputed = true;
             }
         }
     }
     fn released_last(&mut self, t: u64) {
         self.unused_since = Some(t);
-        self.dirty = true;
+        self.frag_times.clear();
+        self.dirty_release = true;
         if self.revived_this_instant {
             self.pickup_released = true;
             self.pickup_released_ever = true;
@@ -331,7 +562,11 @@ impl Model {
         if self.pickup_released && self.task_has_close {
             self.pickup_with_close_ever = true;
         }
-        self.dirty = false;
+        self.dirty_release = false;
+        self.dirty_close = false;
+        if let Some(p) = self.left_pending_until.take() {
+            self.left_outbound_until = Some(self.left_outbound_until.map_or(p, |o| o.max(p)));
+        }
         self.revived_this_instant = false;
         self.pickup_released = false;
         self.task_has_message = false;
@@ -347,6 +582,26 @@ pub struct Facts {
     pub probe_while_referenced: bool,
     pub probe_refused: bool,
     pub probe_side_connection: bool,
+    /// select_transport in the instant the last handle was released, before the stack ran: what it did
+    pub reselect_reused: bool,
+    pub reselect_connected: bool,
+    /// a selection was left out because two live outbound connections to the remote existed (choice unspecified)
+    pub select_skipped: bool,
+    pub fragment_while_unreferenced: Vec<Frag>,
+    pub fragment_while_referenced: bool,
+    pub keepalive_while_unreferenced: bool,
+    pub fragment_completed: bool,
+    pub fragment_continued: bool,
+    pub garbage_skipped: bool,
+    pub close_with_fragment: bool,
+    pub select_with_fragment: bool,
+}
+
+/// what the peer has begun to send on the connection under test
+struct PendingFrag {
+    /// marker of the request it becomes (None: a CRLF keep-alive)
+    marker: Option<String>,
+    rest: Vec<u8>,
 }
 
 // ---------------------------------------------------------------------------------------------
@@ -405,6 +660,10 @@ fn others_open(main: Option<u32>, inbound: &[PeerConn], probe: &FactoryProbe) ->
 }
 
 fn options(marker: &str, via_transport: &str) -> Vec<u8> {
+    options_with_body(marker, via_transport, b"")
+}
+
+fn options_with_body(marker: &str, via_transport: &str, body: &[u8]) -> Vec<u8> {
     request_text(
         "OPTIONS",
         "sip:ezk@10.0.0.1",
@@ -415,7 +674,7 @@ fn options(marker: &str, via_transport: &str) -> Vec<u8> {
         1,
         "OPTIONS",
         &[format!("X-Seq: {marker}")],
-        b"",
+        body,
     )
 }
 
@@ -472,6 +731,10 @@ pub fn check(case: &Case, out: &mut CaseOut) {
         }
 
         let mut msg_gen: std::collections::HashMap<String, u32> = Default::default();
+        // does the application keep the handle that comes with the request (decided by the op that completed it)
+        let mut keep_of: std::collections::HashMap<String, bool> = Default::default();
+        // what the peer has begun to send on the connection under test and not finished
+        let mut pending: Option<PendingFrag> = None;
         let mut t = 0u64;
         let mut seq = 0;
         let n = c.ops.len();
@@ -482,6 +745,7 @@ pub fn check(case: &Case, out: &mut CaseOut) {
             if m.ambiguous {
                 break;
             }
+            'op: {
             match op {
                 Op::Clone => {
                     if let Some(h) = handles.last().cloned() {
@@ -505,58 +769,150 @@ pub fn check(case: &Case, out: &mut CaseOut) {
                     }
                 }
                 Op::Msg { keep } => {
-                    seq += 1;
-                    let marker = format!("m{seq}");
-                    msg_gen.insert(marker.clone(), m.generation);
-                    let bytes = options(&marker, "TCP");
+                    // a request the peer has begun is finished; after half a CRLF the rest of the CRLF and a new
+                    // request go out in one piece
+                    let (marker, bytes) = match pending.take() {
+                        Some(PendingFrag { marker: Some(marker), rest }) => {
+                            if m.alive {
+                                facts.fragment_completed = true;
+                            }
+                            (marker, rest)
+                        }
+                        other => {
+                            seq += 1;
+                            let marker = format!("m{seq}");
+                            msg_gen.insert(marker.clone(), m.generation);
+                            let mut bytes = other.map(|p| p.rest).unwrap_or_default();
+                            bytes.extend_from_slice(&options(&marker, "TCP"));
+                            (marker, bytes)
+                        }
+                    };
+                    keep_of.insert(marker.clone(), *keep);
                     let written = peer_do(main_id, &mut inbound_conns, &probe, PeerAct::Write(bytes)).await;
                     // the rest of this op happens after the scheduling point below
                     if m.alive {
+                        m.frag_pending = false;
                         m.expected_delivered.push(marker.clone());
                         if written {
                             m.msg_unsettled = true;
                             m.task_has_message = true;
                         }
                     }
-                    let _ = keep;
+                }
+                Op::Partial { kind } => {
+                    let (bytes, continued) = match pending.take() {
+                        // a further piece of what was begun: half of what is left (the last byte is kept back)
+                        Some(mut p) => {
+                            let n = p.rest.len() / 2;
+                            let now: Vec<u8> = p.rest.drain(..n).collect();
+                            pending = Some(p);
+                            (now, true)
+                        }
+                        None => {
+                            seq += 1;
+                            let marker = format!("m{seq}");
+                            let (now, rest, is_request) = kind.split(&marker);
+                            if is_request {
+                                msg_gen.insert(marker.clone(), m.generation);
+                            }
+                            pending = Some(PendingFrag { marker: is_request.then_some(marker), rest });
+                            (now, false)
+                        }
+                    };
+                    if !bytes.is_empty() {
+                        let written = peer_do(main_id, &mut inbound_conns, &probe, PeerAct::Write(bytes)).await;
+                        if m.alive && written {
+                            m.frag_pending = true;
+                            if continued {
+                                facts.fragment_continued = true;
+                            }
+                            if m.handles == 0 {
+                                m.frag_times.push(t);
+                                if !facts.fragment_while_unreferenced.contains(kind) {
+                                    facts.fragment_while_unreferenced.push(*kind);
+                                }
+                            } else {
+                                facts.fragment_while_referenced = true;
+                            }
+                        }
+                    }
+                }
+                Op::KeepAlive => {
+                    // only between messages
+                    if pending.is_none() {
+                        let written = peer_do(main_id, &mut inbound_conns, &probe, PeerAct::Write(b"\r\n\r\n".to_vec())).await;
+                        if m.alive && written && m.handles == 0 {
+                            m.frag_times.push(t);
+                            facts.keepalive_while_unreferenced = true;
+                        }
+                    }
                 }
                 Op::PeerClose => {
                     peer_do(main_id, &mut inbound_conns, &probe, PeerAct::Close).await;
                     if m.alive {
+                        if m.frag_pending {
+                            facts.close_with_fragment = true;
+                        }
                         m.alive = false;
-                        m.dirty = true;
+                        m.dirty_close = true;
                         m.task_has_close = true;
                     }
                 }
                 Op::Garbage => {
-                    peer_do(main_id, &mut inbound_conns, &probe, PeerAct::Write(b"\x01\x02 this is not sip\r\n\r\n".to_vec())).await;
-                    if m.alive {
-                        m.alive = false;
-                        m.dirty = true;
-                        m.task_has_close = true;
+                    if pending.is_some() {
+                        // behind the beginning of a message the bytes would be read as part of that message (header
+                        // value, body): no framing error is due, the op is left out
+                        facts.garbage_skipped = true;
+                    } else {
+                        peer_do(main_id, &mut inbound_conns, &probe, PeerAct::Write(b"\x01\x02 this is not sip\r\n\r\n".to_vec())).await;
+                        if m.alive {
+                            m.alive = false;
+                            m.dirty_close = true;
+                            m.task_has_close = true;
+                        }
                     }
                 }
                 Op::Select | Op::Touch => {
                     let touch = matches!(op, Op::Touch);
-                    // reuse is only demanded, and a closed connection only known to be closed, after a scheduling
-                    // point following the release of the last handle / the close. In every other state the
-                    // selection happens right here, whatever is pending on the connection.
-                    if m.dirty {
+                    // a closed connection is only known to be closed after a scheduling point following the close.
+                    // In every other state the selection happens right here, whatever is pending on the connection.
+                    if m.dirty_close {
                         settle().await;
                         m.settled();
                     }
+                    if m.left_outbound_until.map_or(false, |u| t <= u + 2) {
+                        // an outbound connection to the remote that the history moved away from is idle and not
+                        // yet expired (the stack ran since, so it can be picked up again): which of the connections
+                        // to the remote a selection returns is not specified, the op is left out
+                        facts.select_skipped = true;
+                        break 'op;
+                    }
                     if m.msg_unsettled {
                         facts.select_while_message_pending = true;
+                    }
+                    if m.alive && m.frag_pending {
+                        facts.select_with_fragment = true;
                     }
                     let before = probe.connects.lock().len();
                     match endpoint.select_transport(&uri).await {
                         Ok((h, _)) => {
                             let after = probe.connects.lock().len();
                             let reusable = m.alive && !(c.inbound && m.generation == 1);
-                            if reusable {
+                            // the last handle went in this very instant and the stack has not run since: the
+                            // connection may be reused or a new one opened; the handle has to stay good either way
+                            let either = reusable && m.dirty_release && m.handles == 0;
+                            if either {
+                                if after == before {
+                                    facts.reselect_reused = true;
+                                } else {
+                                    facts.reselect_connected = true;
+                                }
+                            }
+                            if reusable && !(either && after != before) {
                                 if after != before {
                                     problems.push(format!("t={t}: live outbound connection not reused (connect called)"));
                                 }
+                                m.dirty_release = false;
                                 if touch {
                                     drop(h);
                                     if m.handles == 0 {
@@ -573,7 +929,7 @@ pub fn check(case: &Case, out: &mut CaseOut) {
                                     handles.push(h);
                                 }
                             } else {
-                                if after == before {
+                                if after == before && !either {
                                     problems.push(format!(
                                         "t={t}: select_transport handed out a connection that is {} instead of connecting anew",
                                         if c.inbound && m.generation == 1 && m.alive { "inbound" } else { "closed/expired" }
@@ -581,23 +937,37 @@ pub fn check(case: &Case, out: &mut CaseOut) {
                                 }
                                 // from now on the new connection is the one the history talks about; handles on
                                 // the old one are let go. The old one still has to end its own idle period on time.
+                                let mut left_until = None;
                                 if let Some(id) = main_id {
                                     if m.alive {
-                                        let last_use = if m.handles > 0 || m.msg_unsettled { t } else { m.unused_since.unwrap_or(t) };
-                                        m.left.push((id, last_use + IDLE));
-                                    } else if let Some(e) = m.expect_eof {
-                                        m.left.push((id, e));
+                                        let ends = if m.handles > 0 || m.msg_unsettled || m.unused_since.is_none() { vec![t + IDLE] } else { m.candidates() };
+                                        if !(c.inbound && m.generation == 1) {
+                                            left_until = ends.last().copied();
+                                        }
+                                        m.left.push((id, ends));
+                                    } else if !m.expect_eof.is_empty() {
+                                        m.left.push((id, m.expect_eof.clone()));
                                     }
                                 }
+                                // what the peer had begun on the old connection is never finished
+                                pending = None;
+                                m.frag_pending = false;
+                                m.frag_times.clear();
                                 handles.clear();
                                 if after != before {
                                     main_id = newest_main(&probe);
                                 }
                                 m.generation += 1;
                                 m.alive = true;
-                                m.expect_eof = None;
+                                m.expect_eof = vec![];
                                 m.msg_unsettled = false;
+                                // (connections left earlier in this instant stay unselectable until the stack runs)
+                                let earlier = m.left_pending_until.take();
                                 m.settled();
+                                m.left_pending_until = earlier;
+                                if let Some(u) = left_until {
+                                    m.left_pending_until = Some(m.left_pending_until.map_or(u, |o| o.max(u)));
+                                }
                                 if touch {
                                     drop(h);
                                     m.handles = 0;
@@ -632,6 +1002,7 @@ pub fn check(case: &Case, out: &mut CaseOut) {
                     }
                 }
             }
+            }
             let next_same_instant = c.ops.get(i + 1).map_or(false, |(g, _)| *g == 0);
             if !next_same_instant {
                 // let the stack run
@@ -646,14 +1017,7 @@ pub fn check(case: &Case, out: &mut CaseOut) {
                         .map(|(_, v)| v.to_string())
                         .unwrap_or_default();
                     delivered.push((clock.now_ms(), marker.clone(), m.generation));
-                    // find the op that sent it to learn `keep`
-                    let idx: usize = marker[1..].parse().unwrap_or(0);
-                    let keep = c
-                        .ops
-                        .iter()
-                        .filter_map(|(_, o)| if let Op::Msg { keep } = o { Some(*keep) } else { None })
-                        .nth(idx.saturating_sub(1))
-                        .unwrap_or(false);
+                    let keep = keep_of.get(&marker).copied().unwrap_or(false);
                     if msg_gen.get(&marker) != Some(&m.generation) {
                         // arrived on a connection the history has moved away from
                         drop(req);
@@ -680,7 +1044,7 @@ pub fn check(case: &Case, out: &mut CaseOut) {
                     problems.push(format!("t={t}: connection with {} live handles is not registered any more", m.handles));
                 }
                 // (judged while the first connection is the one the history talks about)
-                if !m.alive && m.expect_eof.is_none() && count_main != 0 && i + 1 == n && m.generation == 1 {
+                if !m.alive && m.expect_eof.is_empty() && count_main != 0 && i + 1 == n && m.generation == 1 {
                     problems.push(format!("t={t}: closed connection still registered ({count_main})"));
                 }
             }
@@ -696,11 +1060,11 @@ pub fn check(case: &Case, out: &mut CaseOut) {
         if m.alive && !m.ambiguous {
             if had_handles || m.unused_since.is_none() {
                 m.unused_since = Some(t);
+                m.frag_times.clear();
             }
-            if let Some(u) = m.unused_since {
-                m.expect_eof = Some(u + IDLE);
-                m.alive = false;
-            }
+            m.expect_eof = m.candidates();
+            m.fragment_pending_at_expiry |= m.frag_pending;
+            m.alive = false;
         }
         while let Ok(req) = rx.try_recv() {
             drop(req);
@@ -768,7 +1132,51 @@ pub fn check(case: &Case, out: &mut CaseOut) {
     if !model.left.is_empty() {
         out.class("left-connection-expiry-judged");
     }
-    if race || edge || model.pickup_with_message_ever || model.pickup_with_close_ever || !facts.probe_while_unreferenced.is_empty() {
+    if facts.reselect_reused {
+        out.class("select-in-the-instant-of-last-release:connection-reused");
+    }
+    if facts.reselect_connected {
+        out.class("select-in-the-instant-of-last-release:new-connection");
+    }
+    if facts.select_skipped {
+        out.class("select-left-out(two live connections to the remote)");
+    }
+    for k in &facts.fragment_while_unreferenced {
+        out.class(k.label());
+    }
+    if facts.fragment_while_referenced {
+        out.class("fragment-while-referenced");
+    }
+    if facts.keepalive_while_unreferenced {
+        out.class("keep-alive-while-unreferenced");
+    }
+    if facts.fragment_completed {
+        out.class("fragment-completed-later");
+    }
+    if facts.fragment_continued {
+        out.class("fragment-continued-by-another-piece");
+    }
+    if facts.close_with_fragment {
+        out.class("peer-close-with-fragment-in-buffer");
+    }
+    if facts.select_with_fragment {
+        out.class("select-with-fragment-in-buffer");
+    }
+    if facts.garbage_skipped {
+        out.class("garbage-left-out(behind a fragment)");
+    }
+    if model.fragment_pending_at_expiry {
+        out.class("idle-period-ends-with-fragment-in-buffer");
+    }
+    if model.expect_eof.len() > 1 || model.left.iter().any(|l| l.1.len() > 1) {
+        out.class("expiry-judged-against-both-readings-of-traffic");
+    }
+    if model.disputed {
+        out.class("op-between-the-two-readings-of-traffic(unasserted)");
+    }
+    let reselect = facts.reselect_reused || facts.reselect_connected;
+    let fragment = !facts.fragment_while_unreferenced.is_empty() || facts.keepalive_while_unreferenced || model.fragment_pending_at_expiry;
+    if race || edge || model.pickup_with_message_ever || model.pickup_with_close_ever || !facts.probe_while_unreferenced.is_empty() || reselect || fragment {
         out.nontrivial(case);
     }
 
@@ -788,13 +1196,9 @@ pub fn check(case: &Case, out: &mut CaseOut) {
     }
     // connections the history moved away from end their own idle period on time (decided when they were left)
     for (id, want) in &model.left {
-        match obs.all_eof.iter().find(|e| e.0 == *id).and_then(|e| e.1) {
-            Some(t) if t.abs_diff(*want) <= 2 => {}
-            Some(t) => out.fail(
-                if t < *want { "c15.expiry/left-connection-closed-too-early" } else { "c15.expiry/left-connection-closed-too-late" },
-                format!("connection the application no longer uses closed at {t} ms, expected 32 s after its last use = {want} ms"),
-            ),
-            None => out.fail("c15.expiry/left-connection-never-closed", format!("connection the application no longer uses never closed, expected at {want} ms")),
+        let got = obs.all_eof.iter().find(|e| e.0 == *id).and_then(|e| e.1);
+        if let Some((locus, msg)) = judge_close(got, want) {
+            out.fail(format!("c15.expiry/left-connection-{locus}"), format!("connection the application no longer uses {msg}"));
         }
     }
     if model.ambiguous {
@@ -810,15 +1214,9 @@ pub fn check(case: &Case, out: &mut CaseOut) {
         );
     }
     // idle expiry: the connection is closed 32 s after it was last used
-    if let Some(want) = model.expect_eof {
-        let last = obs.eof.and_then(|e| e.1);
-        match last {
-            Some(t) if t.abs_diff(want) <= 2 => {}
-            Some(t) => out.fail(
-                if t < want { "c15.expiry/closed-too-early" } else { "c15.expiry/closed-too-late" },
-                format!("connection closed at {t} ms, expected 32 s after last use = {want} ms"),
-            ),
-            None => out.fail("c15.expiry/never-closed", format!("connection never closed, expected at {want} ms")),
+    if !model.expect_eof.is_empty() {
+        if let Some((locus, msg)) = judge_close(obs.eof.and_then(|e| e.1), &model.expect_eof) {
+            out.fail(format!("c15.expiry/{locus}"), format!("connection {msg}"));
         }
     }
     if obs.final_count != 0 {
@@ -826,23 +1224,45 @@ pub fn check(case: &Case, out: &mut CaseOut) {
     }
 }
 
+/// idle expiry against the accepted instants (ascending; the first = 32 s after the last use, further ones = 32 s
+/// after bytes that are no whole message arrived later than that)
+fn judge_close(got: Option<u64>, want: &[u64]) -> Option<(&'static str, String)> {
+    let text = if want.len() == 1 {
+        format!("expected 32 s after last use = {} ms", want[0])
+    } else {
+        format!("expected 32 s after last use = {} ms, or 32 s after later bytes of an unfinished message / keep-alive = one of {:?} ms", want[0], &want[1..])
+    };
+    match got {
+        Some(t) if want.iter().any(|w| t.abs_diff(*w) <= 2) => None,
+        Some(t) if t < want[0] => Some(("closed-too-early", format!("closed at {t} ms, {text}"))),
+        Some(t) if t > *want.last().unwrap() => Some(("closed-too-late", format!("closed at {t} ms, {text}"))),
+        Some(t) => Some(("closed-off-schedule", format!("closed at {t} ms, {text}"))),
+        None => Some(("never-closed", format!("never closed, {text}"))),
+    }
+}
+
 pub fn property() -> Property {
     Property {
         fuzz: vec![],
         id: "C15",
-        rule: "a case = one mock connection under test (outbound via a mock factory + select_transport, or inbound via a mock listener) and a history of 1..8 ops {clone handle, drop handle, drop all, inbound message (application keeps / releases the handle that comes with it), peer close, garbage bytes, select_transport to the same remote (handle kept), touch = select_transport to the same remote + release of the handle with no scheduling point in between, probe = select_transport for a target the connection must not serve (sips: on the same address, other port, other host; handle released at once)} with gaps from {0 (same instant, no scheduling point: all ops of an instant are pending when the connection's task is polled), 1, 100, 16000, 32000-3, 32000-1, 32000+1, 32000+3, 64000} ms under a paused clock and a tokio select seed. race sub-check enumerates the race named by the property (last handle dropped and a message in the same instant, both orders, around idle periods on the 32 s edge) under 64 (thorough 256) select seeds. pickup sub-check enumerates an idle outbound connection picked up and released between two polls of its task together with message(s) / peer close / garbage in the same instant (7 shapes with a message x keep, 2 without, x idle time before x 32 s -3/+3 ms after) under 32 (thorough 256) select seeds. probe sub-check enumerates selections for the three other targets, once and every 20 s, while the connection is idle / silent / referenced. Oracle = lifecycle reference model: registered while referenced; delivered exactly once while alive; closed 32 s after last use (selections for other targets are no use); unregistered at once on peer close / framing error and never selected afterwards; live outbound connection reused; inbound connections never selected; a connection the history moved away from still expires 32 s after its own last use. Non-trivial = a drop-last and a message within 1 ms, or an event within 3 ms of a 32 s edge, or a pick-up + release of an unreferenced connection sharing its instant with a message / close, or a probe while the connection is unreferenced.",
+        rule: "a case = one mock connection under test (outbound via a mock factory + select_transport, or inbound via a mock listener) and a history of 1..8 ops {clone handle, drop handle, drop all, inbound message (application keeps / releases the handle that comes with it), peer close, garbage bytes, select_transport to the same remote (handle kept), touch = select_transport to the same remote + release of the handle with no scheduling point in between, probe = select_transport for a target the connection must not serve (sips: on the same address, other port, other host; handle released at once), partial = the peer writes the beginning of a request (10 bytes / 90 bytes / head without the empty line / head without body / head and half the body) or CRLF CR or a lone CR and stops (the next message op writes the rest, a further partial half of the rest), keep-alive = a whole CRLF CRLF} with gaps from {0 (same instant, no scheduling point: all ops of an instant are pending when the connection's task is polled), 1, 100, 16000, 32000-3, 32000-1, 32000+1, 32000+3, 64000} ms under a paused clock and a tokio select seed. race sub-check enumerates the race named by the property (last handle dropped and a message in the same instant, both orders, around idle periods on the 32 s edge) under 64 (thorough 256) select seeds. pickup sub-check enumerates an idle outbound connection picked up and released between two polls of its task together with message(s) / peer close / garbage in the same instant (7 shapes with a message x keep, 2 without, x idle time before x 32 s -3/+3 ms after) under 32 (thorough 256) select seeds. probe sub-check enumerates selections for the three other targets, once and every 20 s, while the connection is idle / silent / referenced. reselect sub-check enumerates the release of the last handle (5 ways) and a select_transport to the same remote in the same instant with no scheduling point in between (5 continuations of the instant), the handle then held across 32 s +3 ms, a message, another 32 s -3/+3 ms, released, selected again, under 8 (thorough 64) select seeds. fragment sub-check enumerates 7 fragments + whole keep-alive x {accepted and silent, accepted and released, outbound and released, still referenced and released 100 ms later} x arrival 1 ms / 16 s / 32 s -3 ms into the idle period x {nothing, rest, another piece, peer close, pick-up held 64 s then rest, selection 64 s later}. Oracle = lifecycle reference model: registered while referenced; delivered exactly once while alive; closed 32 s after last use (selections for other targets are no use); unregistered at once on peer close / framing error and never selected afterwards; live outbound connection reused; inbound connections never selected; a connection the history moved away from still expires 32 s after its own last use; a selection in the instant of the last release may reuse or reconnect, the connection it returns is referenced from then on; with bytes that are no whole message the close is accepted 32 s after the last use or 32 s after any later such arrival, and is due after the last of these. Non-trivial = a selection in the instant of the last release, or a fragment / keep-alive on an unreferenced connection, or an idle period ending with a fragment in the read buffer, or a drop-last and a message within 1 ms, or an event within 3 ms of a 32 s edge, or a pick-up + release of an unreferenced connection sharing its instant with a message / close, or a probe while the connection is unreferenced.",
         assumptions: vec![
             "events exactly on the 32 s edge (within 2 ms) stop the comparison (tie is a don't-care)",
-            "reuse is only demanded, and a peer close / framing error only has to be known, after a scheduling point (settle) following the release of the last handle / the close; in every other state select_transport is called with whatever is pending",
+            "a peer close / framing error only has to be known after a scheduling point (settle) following it; in every other state select_transport is called with whatever is pending. Reuse is demanded whenever the connection is alive, except in the instant its last handle was released (before the stack ran): there reuse and reconnect are both accepted",
+            "'32 s without traffic': bytes that are no whole message (fragment of a request, CRLF keep-alive) may or may not count as traffic; a history with an op between the two resulting expiry instants is not judged",
+            "while an outbound connection the history moved away from alive can still be idle (32 s), selections to the remote are left out (which of two live connections is picked is unspecified and depends on hash map order)",
+            "garbage is only sent between messages (behind a fragment it would be read as part of the message)",
             "the peer observes the close as EOF on the in-memory duplex pipe",
             "only a non-secure (TCP) factory is registered: a sips: target has no transport and select_transport may refuse it; what a probe returns is not judged",
             "managed-transport count is attributed to the connection under test after subtracting the other connections of the case the peer has not seen closed (nobody holds handles on those)",
         ],
-        explanation: "race, pickup and probe sub-checks exhaustive over their small products x seeds; random histories sampled",
+        explanation: "race, pickup, probe, reselect and fragment sub-checks exhaustive over their small products x seeds; random histories sampled",
         subs: vec![
             enum_sub("race", race_cases, check),
             enum_sub("pickup", pickup_cases, check),
             enum_sub("probe", probe_cases, check),
+            enum_sub("reselect", reselect_cases, check),
+            enum_sub("fragment", fragment_cases, check),
             prop_sub("history", strategy, 1500, 30000, check),
         ],
     }
